@@ -77,6 +77,15 @@ def kernels(tier, seed):
                 ks.append(("operate<%s,%s>(%s,%s)" % (on, tn, ln, rn), "c06::total<c06::%s,c06::%s,%s,%s,c06::E_OPERATE>" % (oc, tc, lc, rc)))
                 if thorough or (n + seed) % 2 == 0:
                     ks.append(("overflow_integer<%s,%s>(%s,%s)" % (on, tn, ln, rn), "c06::total<c06::%s,c06::%s,%s,%s,c06::E_WRAPPER>" % (oc, tc, lc, rc)))
+    # C07 only: a rounding layer inside the overflow wrapper, and a built-in operand shifted by a wrapper count
+    n = 0
+    for li, (lc, ln) in enumerate(INTS[:8]):
+        for ti, (tc, tn) in enumerate(TAGS):
+            n += 1
+            if thorough or (n + seed) % 3 == 0:
+                ks.append(("overflow<rounding<%s,nearest>,%s> ops" % (ln, tn), "c06::total_forms<c06::%s,%s,0>" % (tc, lc)))
+            if thorough or (n + seed) % 3 == 1:
+                ks.append(("%s shifted by overflow_integer<%s,%s> count" % (ln, ln, tn), "c06::total_forms<c06::%s,%s,1>" % (tc, lc)))
     return [(d, '%s("%s");' % (c, d)) for d, c in ks]
 
 
